@@ -139,76 +139,44 @@ theorem allListsL_dropTrailingWs (P : List FNode → Bool) (l : List FNode) (h :
 
 theorem wsNF_stripwsDefault (ks : List FNode) : wsNF (stripwsDefault ks) = true := wsNFGo_stripwsDefaultGo ks false true
 
+theorem allLists_of_mem (P : List FNode → Bool) : ∀ (l : List FNode), FNode.allListsL P l = true → ∀ x ∈ l, x.allLists P = true
+  | [], _, x, hx => by simp at hx
+  | k :: l, h, x, hx => by
+    rw [allListsL_cons, Bool.and_eq_true] at h
+    rcases List.mem_cons.mp hx with rfl | h2
+    · exact h.1
+    · exact allLists_of_mem P l h.2 x h2
+
 theorem nf_stripwsParenthesis (ks ks' : List FNode) (hA : FNode.allListsL wsNF ks = true)
     (h : stripwsParenthesis ks = .ok ks') : wsNF ks' = true ∧ FNode.allListsL wsNF ks' = true := by
   unfold stripwsParenthesis at h
-  cases ks with
-  | nil => simp at h
-  | cons first tl =>
-    simp only at h
-    rw [allListsL_cons, Bool.and_eq_true] at hA
-    cases hdw : tl.dropWhile FNode.isWhitespace with
-    | nil => rw [hdw] at h; simp at h
-    | cons t1 tl1 =>
-      rw [hdw] at h
-      simp only at h
-      have hA1 : FNode.allListsL wsNF (t1 :: tl1) = true := by rw [← hdw]; exact allListsL_dropWhile _ _ _ hA.2
-      obtain ⟨ys, l', hys⟩ : ∃ ys l', t1 :: tl1 = ys ++ [l'] := by
-        have hne : (t1 :: tl1) ≠ [] := by simp
-        exact ⟨(t1 :: tl1).dropLast, (t1 :: tl1).getLast hne, (List.dropLast_concat_getLast hne).symm⟩
-      have hlast : (t1 :: tl1).getLast?.getD t1 = l' := by rw [hys]; simp
-      have hinit : (first :: t1 :: tl1).dropLast = first :: ys := by
-        rw [hys]
-        cases ys with
-        | nil => simp
-        | cons y ys' => simp [List.dropLast]
-      rw [hlast, hinit] at h
-      rw [hys] at hA1
-      have hAys := allListsL_prefix _ _ _ hA1
-      have hAl' : l'.allLists wsNF = true := by
-        have := allListsL_suffix _ _ _ hA1
-        simpa [FNode.allListsL] using this
-      have hAinit : FNode.allListsL wsNF (first :: ys) = true := by rw [allListsL_cons, hA.1, hAys]; rfl
-      cases hrev : (dropTrailingWs (first :: ys)).reverse with
-      | nil => rw [hrev] at h; simp at h
-      | cons pen revInit =>
-        rw [hrev] at h
-        simp only at h
-        have hdt : dropTrailingWs (first :: ys) = revInit.reverse ++ [pen] := by
-          have := congrArg List.reverse hrev
-          simpa using this
-        have hAd := allListsL_dropTrailingWs _ _ hAinit
-        rw [hdt] at hAd
-        have hArev := allListsL_prefix _ _ _ hAd
-        have hApen : pen.allLists wsNF = true := by
-          have := allListsL_suffix _ _ _ hAd
-          simpa [FNode.allListsL] using this
-        cases pen with
-        | tok tt v =>
-          simp only [Except.ok.injEq] at h
-          rw [← h]
-          refine ⟨wsNF_stripwsDefault _, ?_⟩
-          unfold stripwsDefault
-          rw [allListsL_stripwsDefaultGo, allListsL_append, hArev]
-          simp [FNode.allListsL, hApen, hAl']
-        | grp c cv gks =>
-          simp only at h
-          cases hg : dropTrailingWs gks with
-          | nil => rw [hg] at h; simp at h
-          | cons g0 grest =>
-            rw [hg] at h
-            simp only [Except.ok.injEq] at h
-            rw [← h]
-            refine ⟨wsNF_stripwsDefault _, ?_⟩
-            unfold FNode.allLists at hApen
-            rw [Bool.and_eq_true] at hApen
-            have hpen' : (FNode.grp c cv (g0 :: grest)).allLists wsNF = true := by
-              unfold FNode.allLists
-              rw [← hg, Bool.and_eq_true]
-              exact ⟨wsNFGo_dropTrailingWs _ _ _ hApen.1, allListsL_dropTrailingWs _ _ hApen.2⟩
-            unfold stripwsDefault
-            rw [allListsL_stripwsDefaultGo, allListsL_append, hArev]
-            simp [FNode.allListsL, hpen', hAl']
+  split at h
+  · cases h
+  · rename_i l3 hl3
+    simp only [Except.ok.injEq] at h
+    rw [← h]
+    refine ⟨wsNF_stripwsDefault _, ?_⟩
+    unfold stripwsDefault
+    rw [allListsL_stripwsDefaultGo]
+    have hmem := allLists_of_mem wsNF ks hA
+    have hl2 : ∀ x ∈ trimInsideBy FNode.isWhitespace ks, x.allLists wsNF = true :=
+      fun x hx => hmem x ((trimInsideBy_del FNode.isWhitespace ks).mem x hx)
+    rcases trimPenGroup_ok _ l3 hl3 with rfl | ⟨revInit, last, c, cv, gks, g0, grest, hl, hg, hl3'⟩
+    · exact allListsL_of_mem _ _ hl2
+    · rw [hl3']
+      apply allListsL_of_mem
+      intro x hx
+      rw [hl] at hl2
+      rcases List.mem_append.mp hx with h1 | h1
+      · exact hl2 x (List.mem_append_left _ h1)
+      · simp only [List.mem_cons, List.mem_nil_iff, or_false] at h1
+        rcases h1 with rfl | rfl
+        · have hpen := hl2 (.grp c cv gks) (by simp)
+          unfold FNode.allLists at hpen ⊢
+          rw [Bool.and_eq_true] at hpen ⊢
+          rw [← hg]
+          exact ⟨wsNFGo_dropTrailingWs _ _ _ hpen.1, allListsL_dropTrailingWs _ _ hpen.2⟩
+        · exact hl2 x (by simp)
 
 theorem nf_stripwsLevel (d : Nat) (c : Cls) (ks ks' : List FNode) (hA : FNode.allListsL wsNF ks = true)
     (h : stripwsLevel d c ks = .ok ks') : wsNF ks' = true ∧ FNode.allListsL wsNF ks' = true := by
@@ -343,169 +311,181 @@ theorem dropTrailingWs_last_not_ws (l : List FNode) (pen : FNode) (rev : List FN
   rw [List.reverse_reverse] at h
   exact dropWhile_head_not FNode.isWhitespace l.reverse pen (by rw [h]; rfl)
 
-/-- what `_stripws_parenthesis` returns: at least two children, and the last but one is not whitespace (`tokens[-2]`) -/
-theorem stripwsParenthesis_before_close (ks ks' : List FNode) (h : stripwsParenthesis ks = .ok ks') :
-    ∃ init y z, ks' = init ++ [y, z] ∧ y.isWhitespace = false := by
-  unfold stripwsParenthesis at h
-  cases ks with
-  | nil => simp at h
-  | cons first tl =>
-    simp only at h
-    cases hdw : tl.dropWhile FNode.isWhitespace with
-    | nil => rw [hdw] at h; simp at h
-    | cons t1 tl1 =>
-      rw [hdw] at h
-      simp only at h
-      cases hrev : (dropTrailingWs (first :: t1 :: tl1).dropLast).reverse with
-      | nil => rw [hrev] at h; simp at h
-      | cons pen revInit =>
-        rw [hrev] at h
-        simp only at h
-        have hpen := dropTrailingWs_last_not_ws _ pen revInit hrev
-        -- the result is `stripwsDefault (revInit.reverse ++ [pen', last])`; look at its whitespace pattern
-        have key : ∀ (pen' last : FNode), pen'.isWhitespace = false →
-            ∃ init y z, stripwsDefault (revInit.reverse ++ [pen', last]) = init ++ [y, z] ∧ y.isWhitespace = false := by
-          intro pen' last hp'
-          have hm := map_ws_stripwsDefaultGo (revInit.reverse ++ [pen', last]) false true
-          have hlen : (stripwsDefault (revInit.reverse ++ [pen', last])).length = revInit.reverse.length + 2 := by
-            have := congrArg List.length hm
-            simpa [stripwsDefault] using this
-          -- split the result at `revInit.length`
-          obtain ⟨init, tail2, hsplit, hil⟩ : ∃ init tail2, stripwsDefault (revInit.reverse ++ [pen', last]) = init ++ tail2 ∧ init.length = revInit.reverse.length :=
-            ⟨(stripwsDefault (revInit.reverse ++ [pen', last])).take revInit.reverse.length,
-             (stripwsDefault (revInit.reverse ++ [pen', last])).drop revInit.reverse.length,
-             (List.take_append_drop _ _).symm, by rw [List.length_take]; omega⟩
-          have htl : tail2.length = 2 := by
-            have := congrArg List.length hsplit
-            rw [List.length_append, hlen, hil] at this; omega
-          match tail2, htl with
-          | [y, z], _ =>
-            refine ⟨init, y, z, hsplit, ?_⟩
-            unfold stripwsDefault at hsplit
-            rw [hsplit] at hm
-            simp only [List.map_append, List.map_cons, List.map_nil] at hm
-            have := List.append_inj hm (by simp [hil])
-            have h2 := this.2
-            simp only [List.cons.injEq] at h2
-            rw [h2.1, hp']
-        cases pen with
-        | tok tt v =>
-          simp only [Except.ok.injEq] at h
-          rw [← h]
-          exact key _ _ hpen
-        | grp c cv gks =>
-          simp only at h
-          cases hg : dropTrailingWs gks with
-          | nil => rw [hg] at h; simp at h
-          | cons g0 grest =>
-            rw [hg] at h
-            simp only [Except.ok.injEq] at h
-            rw [← h]
-            exact key _ _ rfl
+/-! ### the parenthesis rule after repo commit 4e9e704 -/
 
+theorem popLeadBy_cons2 {α : Type} (p : α → Bool) (b c : α) (r : List α) :
+    popLeadBy p (b :: c :: r) = if p b = true then popLeadBy p (c :: r) else b :: c :: r := by
+  conv => lhs; unfold popLeadBy
 
-theorem dropTrailingWs_keeps (a b : FNode) (m : List FNode) (hb : b.isWhitespace = false) :
-    ∃ m', dropTrailingWs (a :: b :: m) = a :: b :: m' := by
-  obtain ⟨y, hy, hws⟩ := dropTrailingWs_rest_ws (a :: b :: m)
-  generalize dropTrailingWs (a :: b :: m) = D at hy
-  match D, hy with
-  | [], hy =>
-    simp only [List.nil_append] at hy
-    have : b ∈ y := by rw [← hy]; simp
-    rw [hws b this] at hb; cases hb
-  | [d0], hy =>
-    simp only [List.cons_append, List.nil_append, List.cons.injEq] at hy
-    have : b ∈ y := by rw [← hy.2]; simp
-    rw [hws b this] at hb; cases hb
-  | d0 :: d1 :: D', hy =>
-    simp only [List.cons_append, List.cons.injEq] at hy
-    exact ⟨D', by rw [← hy.1, ← hy.2.1]⟩
+theorem popLeadBy_single {α : Type} (p : α → Bool) (b : α) : popLeadBy p [b] = [b] := by
+  unfold popLeadBy; rfl
 
-/-- what `_stripws_parenthesis` returns: the second child is not whitespace (`tokens[1]`) -/
-theorem stripwsParenthesis_after_open (ks ks' : List FNode) (h : stripwsParenthesis ks = .ok ks') :
-    ∃ a b rest, ks' = a :: b :: rest ∧ b.isWhitespace = false := by
-  unfold stripwsParenthesis at h
-  cases ks with
-  | nil => simp at h
-  | cons first tl =>
-    simp only at h
-    cases hdw : tl.dropWhile FNode.isWhitespace with
-    | nil => rw [hdw] at h; simp at h
-    | cons t1 tl1 =>
-      rw [hdw] at h
-      simp only at h
-      have ht1 : t1.isWhitespace = false :=
-        dropWhile_head_not FNode.isWhitespace tl t1 (by rw [hdw]; rfl)
-      -- the argument of `stripwsDefault`, up to the last two elements' identity
-      have key : ∀ (L : List FNode), (∃ a b r, L = a :: b :: r ∧ b.isWhitespace = false) →
-          ∃ a b rest, stripwsDefault L = a :: b :: rest ∧ b.isWhitespace = false := by
-        rintro L ⟨a, b, r, rfl, hb⟩
-        have hm := map_ws_stripwsDefaultGo (a :: b :: r) false true
-        match hs : stripwsDefaultGo false true (a :: b :: r), hm with
-        | [], hm => simp at hm
-        | [x], hm => simp at hm
-        | x :: y :: r', hm =>
-          simp only [List.map_cons, List.cons.injEq] at hm
-          exact ⟨x, y, r', hs, by rw [hm.2.1, hb]⟩
-      cases hrev : (dropTrailingWs (first :: t1 :: tl1).dropLast).reverse with
-      | nil => rw [hrev] at h; simp at h
-      | cons pen revInit =>
-        rw [hrev] at h
-        simp only at h
-        have hpen := dropTrailingWs_last_not_ws _ pen revInit hrev
-        have hdt : dropTrailingWs (first :: t1 :: tl1).dropLast = revInit.reverse ++ [pen] := by
-          have := congrArg List.reverse hrev
+theorem popLeadBy_suffix {α : Type} (p : α → Bool) : ∀ (l : List α), ∃ pre, l = pre ++ popLeadBy p l
+  | [] => ⟨[], rfl⟩
+  | [b] => ⟨[], by simp [popLeadBy_single]⟩
+  | b :: c :: r => by
+    rw [popLeadBy_cons2]
+    split
+    · obtain ⟨pre, hpre⟩ := popLeadBy_suffix p (c :: r)
+      exact ⟨b :: pre, by rw [List.cons_append, ← hpre]⟩
+    · exact ⟨[], rfl⟩
+
+theorem popLeadBy_head {α : Type} (p : α → Bool) : ∀ (l : List α) (b c : α) (r : List α),
+    popLeadBy p l = b :: c :: r → p b = false
+  | [], b, c, r, h => by simp [popLeadBy] at h
+  | [x], b, c, r, h => by simp [popLeadBy_single] at h
+  | x :: y :: t, b, c, r, h => by
+    rw [popLeadBy_cons2] at h
+    split at h
+    · exact popLeadBy_head p (y :: t) b c r h
+    · rename_i hx
+      simp only [List.cons.injEq] at h
+      rw [← h.1]; simpa using hx
+
+theorem popLeadBy_ne_nil {α : Type} (p : α → Bool) : ∀ (l : List α), l ≠ [] → popLeadBy p l ≠ []
+  | [], h => absurd rfl h
+  | [b], _ => by simp [popLeadBy_single]
+  | b :: c :: r, _ => by
+    rw [popLeadBy_cons2]
+    split
+    · exact popLeadBy_ne_nil p (c :: r) (by simp)
+    · simp
+
+/-- shape of the result of the two guarded loops: the first and the last element stay, in between a prefix-suffix trimmed
+middle; if anything is left in the middle, its first and its last element do not satisfy `p` -/
+theorem trimInsideBy_shape {α : Type} (p : α → Bool) (l : List α) :
+    trimInsideBy p l = l ∧ l.length ≤ 1 ∨
+    ∃ a z mid, trimInsideBy p l = a :: mid ++ [z] ∧
+      (∀ b r, mid = b :: r → p b = false) ∧ (∀ i y, mid = i ++ [y] → p y = false) := by
+  cases l with
+  | nil => left; exact ⟨rfl, by simp⟩
+  | cons a tl =>
+    cases tl with
+    | nil => left; exact ⟨rfl, by simp⟩
+    | cons b0 r0 =>
+      right
+      -- after the first loop: a :: t with t non-empty
+      have ht_ne : popLeadBy p (b0 :: r0) ≠ [] := popLeadBy_ne_nil p _ (by simp)
+      obtain ⟨t', z, ht⟩ : ∃ t' z, popLeadBy p (b0 :: r0) = t' ++ [z] := by
+        refine ⟨(popLeadBy p (b0 :: r0)).dropLast, (popLeadBy p (b0 :: r0)).getLast ht_ne, ?_⟩
+        exact (List.dropLast_concat_getLast ht_ne).symm
+      have hm : trimAfterFirstBy p (a :: b0 :: r0) = a :: (t' ++ [z]) := by
+        simp only [trimAfterFirstBy, ht]
+      -- the second loop works on z :: (t'.reverse ++ [a])
+      have hrev : (a :: (t' ++ [z])).reverse = z :: (t'.reverse ++ [a]) := by simp
+      obtain ⟨pre, hpre⟩ := popLeadBy_suffix p (t'.reverse ++ [a])
+      have hs_ne : popLeadBy p (t'.reverse ++ [a]) ≠ [] := popLeadBy_ne_nil p _ (by simp)
+      -- the popped list ends in `a`
+      obtain ⟨s', hs'⟩ : ∃ s', popLeadBy p (t'.reverse ++ [a]) = s' ++ [a] := by
+        refine ⟨(popLeadBy p (t'.reverse ++ [a])).dropLast, ?_⟩
+        have hl := (List.dropLast_concat_getLast hs_ne).symm
+        have hlast : (popLeadBy p (t'.reverse ++ [a])).getLast hs_ne = a := by
+          have h1 : (t'.reverse ++ [a]).getLast (by simp) = a := by simp
+          have h2 : (pre ++ popLeadBy p (t'.reverse ++ [a])).getLast (by simp [hs_ne]) = a := by
+            have := h1
+            simp only [← hpre] at *
+            exact this
+          rw [List.getLast_append_of_ne_nil _ hs_ne] at h2
+          exact h2
+        rw [hlast] at hl
+        exact hl
+      have hres : trimInsideBy p (a :: b0 :: r0) = a :: s'.reverse ++ [z] := by
+        unfold trimInsideBy trimBeforeLastBy
+        rw [hm, hrev]
+        simp only [trimAfterFirstBy, hs']
+        simp
+      refine ⟨a, z, s'.reverse, hres, ?_, ?_⟩
+      · -- first of the middle: it is the first of `t`, and `t` has at least two elements
+        intro b r hmid
+        have hs'ne : s' ≠ [] := by intro h0; rw [h0] at hmid; simp at hmid
+        -- s' is a suffix of t'.reverse, so s'.reverse is a prefix of t'
+        have hpre2 : t'.reverse ++ [a] = pre ++ (s' ++ [a]) := by rw [← hs']; exact hpre
+        have hpre3 : t'.reverse = pre ++ s' := by
+          have := congrArg List.dropLast hpre2
+          simpa [← List.append_assoc] using this
+        have ht' : t' = s'.reverse ++ pre.reverse := by
+          have := congrArg List.reverse hpre3
           simpa using this
-        -- shape of `revInit.reverse ++ [pen', last]` for any non-whitespace `pen'`
-        have hlastv : tl1 = [] → (t1 :: tl1).getLast?.getD t1 = t1 := by intro h0; rw [h0]; rfl
-        generalize (t1 :: tl1).getLast?.getD t1 = lastv at h hlastv
-        have shape : ∀ (pen' : FNode), pen'.isWhitespace = false →
-            ∃ a b r, revInit.reverse ++ [pen', lastv] = a :: b :: r ∧ b.isWhitespace = false := by
-          intro pen' hp'
-          cases tl1 with
-          | nil =>
-            -- `( x )`-like: init = [first]
-            have hd1 : (first :: [t1]).dropLast = [first] := rfl
-            rw [hd1] at hdt
-            obtain ⟨y, hy, _⟩ := dropTrailingWs_rest_ws [first]
-            rw [hdt] at hy
-            have hlen := congrArg List.length hy
-            simp at hlen
-            have : revInit.reverse = [] := by
-              have : revInit.length = 0 := by omega
-              simp [List.length_eq_zero_iff.mp this]
-            rw [this]
-            exact ⟨pen', lastv, [], by simp, by rw [hlastv rfl]; exact ht1⟩
-          | cons x tl1' =>
-            have hd1 : (first :: t1 :: x :: tl1').dropLast = first :: t1 :: (x :: tl1').dropLast := by
-              simp [List.dropLast]
-            rw [hd1] at hdt
-            obtain ⟨m', hm'⟩ := dropTrailingWs_keeps first t1 (x :: tl1').dropLast ht1
-            rw [hm'] at hdt
-            cases hr : revInit.reverse with
-            | nil => rw [hr] at hdt; simp at hdt
-            | cons r0 rr =>
-              rw [hr] at hdt
-              cases rr with
-              | nil =>
-                exact ⟨r0, pen', [lastv], by simp, hp'⟩
-              | cons r1 rr' =>
-                simp only [List.cons_append, List.cons.injEq] at hdt
-                exact ⟨r0, r1, rr' ++ [pen', lastv], by simp, by rw [← hdt.2.1]; exact ht1⟩
-        cases pen with
-        | tok tt v =>
-          simp only [Except.ok.injEq] at h
-          rw [← h]
-          exact key _ (shape _ hpen)
-        | grp c cv gks =>
-          simp only at h
-          cases hg : dropTrailingWs gks with
-          | nil => rw [hg] at h; simp at h
-          | cons g0 grest =>
-            rw [hg] at h
-            simp only [Except.ok.injEq] at h
-            rw [← h]
-            exact key _ (shape _ rfl)
+        rw [hmid] at ht'
+        -- t = b :: r ++ pre.reverse ++ [z] has at least two elements and starts with b
+        have : popLeadBy p (b0 :: r0) = b :: (r ++ pre.reverse ++ [z]) := by
+          rw [ht, ht']; simp
+        cases hrr : r ++ pre.reverse ++ [z] with
+        | nil => simp at hrr
+        | cons c rr => rw [hrr] at this; exact popLeadBy_head p _ b c rr this
+      · intro i y hmid
+        have hs'eq : s' = y :: i.reverse := by
+          have := congrArg List.reverse hmid
+          simpa using this
+        rw [hs'eq] at hs'
+        exact popLeadBy_head p _ y ((i.reverse ++ [a]).head (by simp)) ((i.reverse ++ [a]).tail) (by
+          rw [hs']; simp)
 
+
+theorem map_ws_trimPenGroup (l l3 : List FNode) (h : trimPenGroup l = .ok l3) :
+    l3.map FNode.isWhitespace = l.map FNode.isWhitespace := by
+  rcases trimPenGroup_ok l l3 h with rfl | ⟨revInit, last, c, cv, gks, g0, grest, hl, _, hl3⟩
+  · rfl
+  · rw [hl, hl3]; simp [FNode.isWhitespace]
+
+/-- the whitespace pattern of what `_stripws_parenthesis` returns is that of the list after the two guarded loops -/
+theorem stripwsParenthesis_pattern (ks out : List FNode) (h : stripwsParenthesis ks = .ok out) :
+    out.map FNode.isWhitespace = (trimInsideBy FNode.isWhitespace ks).map FNode.isWhitespace := by
+  unfold stripwsParenthesis at h
+  split at h
+  · cases h
+  · rename_i l3 hl3
+    simp only [Except.ok.injEq] at h
+    rw [← h]
+    unfold stripwsDefault
+    rw [map_ws_stripwsDefaultGo, map_ws_trimPenGroup _ _ hl3]
+
+/-- what `_stripws_parenthesis` returns: if it has at least three children, the second one is not whitespace (`tokens[1]`).
+The guard `len(tokens) > 2` makes the hypothesis necessary: `( )` keeps its blank, `'( \n)'` → `'( )'`. -/
+theorem stripwsParenthesis_after_open (ks : List FNode) (a b c : FNode) (rest : List FNode)
+    (h : stripwsParenthesis ks = .ok (a :: b :: c :: rest)) : b.isWhitespace = false := by
+  have hmap := stripwsParenthesis_pattern ks _ h
+  rcases trimInsideBy_shape FNode.isWhitespace ks with ⟨he, hlen⟩ | ⟨a', z', mid, hs, hfirst, _⟩
+  · have := congrArg List.length hmap
+    rw [he] at this
+    simp at this
+    omega
+  · rw [hs] at hmap
+    cases mid with
+    | nil => simp at hmap
+    | cons b' r' =>
+      simp only [List.cons_append, List.map_cons, List.cons.injEq] at hmap
+      rw [hmap.2.1]
+      exact hfirst b' r' rfl
+
+/-- … and the last but one is not whitespace (`tokens[-2]`), again for at least three children -/
+theorem stripwsParenthesis_before_close (ks i : List FNode) (x y z : FNode)
+    (h : stripwsParenthesis ks = .ok (i ++ [x, y, z])) : y.isWhitespace = false := by
+  have hmap := stripwsParenthesis_pattern ks _ h
+  rcases trimInsideBy_shape FNode.isWhitespace ks with ⟨he, hlen⟩ | ⟨a', z', mid, hs, _, hlast⟩
+  · have := congrArg List.length hmap
+    rw [he] at this
+    simp at this
+    omega
+  · rw [hs] at hmap
+    cases hm : mid.reverse with
+    | nil =>
+      have : mid = [] := by simpa using hm
+      subst this
+      have := congrArg List.length hmap
+      simp at this
+    | cons y' ri =>
+      have hmid : mid = ri.reverse ++ [y'] := by
+        have := congrArg List.reverse hm
+        simpa using this
+      have hy' := hlast ri.reverse y' hmid
+      rw [hmid] at hmap
+      have e1 : (i ++ [x, y, z]).map FNode.isWhitespace = (i ++ [x]).map FNode.isWhitespace ++ [y.isWhitespace, z.isWhitespace] := by simp
+      have e2 : (a' :: (ri.reverse ++ [y']) ++ [z']).map FNode.isWhitespace
+          = (a' :: ri.reverse).map FNode.isWhitespace ++ [y'.isWhitespace, z'.isWhitespace] := by simp
+      rw [e1, e2] at hmap
+      have := List.append_inj_right' hmap (by simp)
+      simp only [List.cons.injEq] at this
+      rw [this.1]; exact hy'
 
 end Sql
